@@ -441,6 +441,8 @@ def call_container_method(I: Interp, recv: SV, name: str, args, kwargs, fr: Fram
             d = I.to_sv(args[1]) if len(args) > 1 else I.to_sv(kwargs.get("default", const(None)))
             v = I.dict_get(recv, key)
             has = I.dict_has(recv, key)
+            if isinstance(d, SV) and d.ty.k in ("list", "dict", "set") and v.ty.k == d.ty.k and all(x.k == "any" for x in d.ty.a):
+                d = SV(d.t, v.ty, d.c)  # an empty literal default takes the type of the mapping's values
             res = I.merge(has, v, d)
             if isinstance(res, SV):
                 w = st.wt(v.ty, v.t)
